@@ -337,6 +337,11 @@ def _about_rejections(o):
     if o["kind"] in ("raises", "vacuity", "lemma", "canary"):
         return True
     n = o["name"]
+    # the fields of a constructed stepper that DEFINE which state shapes its __call__ accepts (seeded/C20c-2: a constructor
+    # that drops `single_channel` when delegating builds a stepper with the wrong channel count, which then rejects the
+    # documented state and accepts a wrong one)
+    if any(s in n for s in (".num_channels:", ".num_points:", ".num_spatial_dims:")):
+        return True
     return any(s in n for s in (": shape ==", ": rank ", ": sequence of length", ": type is", ": is an array", ": mapping with keys", ": is a slice", "result is callable"))
 
 
